@@ -25,34 +25,36 @@ def run_real(ops):
     box, chained, late = IoBoxDevice(), IoBoxDevice(), IoBoxDevice()
     outs = []
     held = []   # (index, the output object exactly as update() returned it, what it read at that moment)
+    py = lambda v: None if v == NONE_VAL else v        # noqa: E731  values as the real device sees them
+    back = lambda v: NONE_VAL if v is None else v      # noqa: E731
     for op in ops:
         if op["o"] == "write":
-            box.write(op["a"], op["v"])
+            box.write(op["a"], py(op["v"]))
             outs.append(None)
         elif op["o"] == "read":
             try:
-                outs.append(box.read(op["a"]))
+                outs.append(back(box.read(op["a"])))
             except (KeyError, ValueError):
                 outs.append("KeyError")
         elif op["o"] == "update":
-            inputs = {"updates": [tuple(x) for x in op["ins"]]} if op.get("with_port", True) else {}
+            inputs = {"updates": [(x[0], py(x[1])) for x in op["ins"]]} if op.get("with_port", True) else {}
             given = list(inputs.get("updates", []))
             upd = box.update(SimTime(0), inputs)
             if list(inputs.get("updates", [])) != given:
                 # the list on the input port is the upstream component's output object (values travel by reference)
                 box._verif_mutated = (len(outs), given, list(inputs.get("updates", [])))
-            o = [list(x) for x in upd.outputs.get("updates", [])]
+            o = [[x[0], back(x[1])] for x in upd.outputs.get("updates", [])]
             outs.append(o)
             held.append((len(outs) - 1, upd.outputs, o))
-            chained.update(SimTime(0), {"updates": [tuple(x) for x in o]})
+            chained.update(SimTime(0), {"updates": [(x[0], py(x[1])) for x in o]})
     # a consumer that holds on to the outputs (as DeviceComponent.last_outputs does, by reference) and a second
     # box that is fed from the held outputs only after the whole history
     rewritten = []
     for i, obj, snap in held:
-        now = [list(x) for x in obj.get("updates", [])]
+        now = [[x[0], back(x[1])] for x in obj.get("updates", [])]
         if now != snap:
             rewritten.append((i, snap, now))
-        late.update(SimTime(0), {"updates": [tuple(x) for x in now]})
+        late.update(SimTime(0), {"updates": [(x[0], py(x[1])) for x in now]})
     box._verif_rewritten = rewritten
     box._verif_late = late
     return outs, dict(box._memory) if hasattr(box, "_memory") else None, (box, chained)
@@ -89,7 +91,8 @@ def monitor(ops, outs, boxes):
     for a in {0, 1, 2, 3}:
         def rd(b):
             try:
-                return b.read(a)
+                v = b.read(a)
+                return NONE_VAL if v is None else v
             except (KeyError, ValueError):
                 return "KeyError"
         if rd(box) != mem.get(a, "KeyError"):
@@ -103,16 +106,19 @@ def monitor(ops, outs, boxes):
     return vs
 
 
+NONE_VAL = -1000003   # travels to the Lean model as this integer, to the real device as Python's None
+
+
 def gen_ops(rng, n, addrs=2, vals=2):
     ops = []
     for _ in range(n):
         r = rng.random()
         if r < 0.45:
-            ops.append({"o": "write", "a": rng.randrange(addrs), "v": rng.randrange(vals)})
+            ops.append({"o": "write", "a": rng.randrange(addrs), "v": rng.randrange(vals) if rng.random() < 0.85 else NONE_VAL})
         elif r < 0.7:
             ops.append({"o": "read", "a": rng.randrange(addrs)})
         else:
-            ops.append({"o": "update", "ins": [[rng.randrange(addrs), rng.randrange(vals)] for _ in range(rng.choice((0, 0, 1, 2)))]})
+            ops.append({"o": "update", "ins": [[rng.randrange(addrs), rng.randrange(vals) if rng.random() < 0.85 else NONE_VAL] for _ in range(rng.choice((0, 0, 1, 2)))]})
     ops.append({"o": "update", "ins": []})
     return ops
 
